@@ -1,0 +1,21 @@
+//go:build verif
+
+package batchers
+
+import "io"
+
+// VerifSyncReaderToChan runs syncReaderToBatcher (the per-file loop of OpenFilesToChan, no flush
+// timer) over an arbitrary reader, so that the verification harness (/verif, property C04) can feed it
+// scripted chunkings and read faults.  Add-only.
+func VerifSyncReaderToChan(sourceName string, reader io.Reader, batchSize, batchBuffer int) *Batcher {
+	out := newBatcher(batchBuffer)
+
+	go func() {
+		defer out.close()
+		out.startFileReading(sourceName)
+		out.syncReaderToBatcher(sourceName, reader, batchSize)
+		out.stopFileReading(sourceName)
+	}()
+
+	return out
+}
